@@ -159,7 +159,12 @@ func (pool *TxPool) delTx(tx *types.Transaction) {
 	// delete indexes of sub transactions in box transaction
 	if tx.Type() == params.BoxTx {
 		for _, subTx := range getSubTxs(tx) {
-			delete(pool.hashIndexMap, subTx.Hash())
+			subHash := subTx.Hash()
+			// the sub tx may be in the pool by itself, or in another box. It is packaged now, so they can't be packaged again
+			if index, ok := pool.hashIndexMap[subHash]; ok {
+				pool.txs[index] = nil
+				delete(pool.hashIndexMap, subHash)
+			}
 		}
 	}
 }
